@@ -673,6 +673,17 @@ func init() {
 		x.thMelt("B", 0, []int{1})
 		x.thSwap("C", []int{1}, "")
 	}, oracle: oracleC01([]int{1})})
+	addScn(&schedScn{name: "S13-failedmelt-poll-poll-remelt-swap", prop: "C01", setup: func(x *schedX) {
+		// as S11 with TWO polls: one of them may act on what it read before the other released the quote and a new melt
+		// (other input, payment in flight) was accepted
+		must(x.w, "fund|8,8", "meltq|4", "melt|0|0|P")
+		x.w.LN.Payments[x.w.Melts[0].Hash].Status = lnmodel.Failed
+		x.w.LN.PayScript[x.w.Melts[0].Hash] = []lnmodel.Answer{lnmodel.Pending}
+		x.thPollMelt("A", 0)
+		x.thPollMelt("D", 0)
+		x.thMelt("B", 0, []int{1})
+		x.thSwap("C", []int{1}, "")
+	}, oracle: oracleC01([]int{1})})
 	for _, st := range []struct {
 		name   string
 		status lnmodel.Answer
@@ -966,6 +977,9 @@ func replaySched(prop, path string) (int, bool) {
 
 func runSched(c *rt.Ctx, prop string, names []string, bound int) {
 	for _, n := range names {
+		if f := os.Getenv("VERIF_DEV_SCN"); f != "" && !strings.Contains(n, f) { // development aid
+			continue
+		}
 		if c.Expired() {
 			c.Exhaustive = false
 			return
@@ -979,6 +993,9 @@ func runSched(c *rt.Ctx, prop string, names []string, bound int) {
 // runSchedAll: bounded search (as runSched) followed by the unbounded search with state pruning, per scenario.
 func runSchedAll(c *rt.Ctx, prop string, names []string, bound int) {
 	for _, n := range names {
+		if f := os.Getenv("VERIF_DEV_SCN"); f != "" && !strings.Contains(n, f) { // development aid
+			continue
+		}
 		if c.Expired() {
 			c.Exhaustive = false
 			return
